@@ -115,7 +115,10 @@ pub trait RiRefImpl {
 		for _segment in base_segments {
 			result
 				.path_mut()
-				.push(<<Self::Path as PathImpl>::Segment as SegmentImpl>::PARENT);
+				.push(verif_static!(
+					<<Self::Path as PathImpl>::Segment as SegmentImpl>::PARENT,
+					<<Self::Path as PathImpl>::Segment as SegmentImpl>::new_unchecked(b"..")
+				));
 		}
 
 		for segment in self_segments {
@@ -416,7 +419,10 @@ pub trait RiRefBufImpl: Sized + RiRefImpl {
 				path_buffer.set_authority(base_iri.authority()); // we set the authority to avoid path disambiguation.
 
 				if base_iri.authority().is_some() && base_iri.path().is_empty() {
-					path_buffer.set_path(Self::Path::EMPTY_ABSOLUTE);
+					path_buffer.set_path(verif_static!(
+						Self::Path::EMPTY_ABSOLUTE,
+						<Self::Path as PathImpl>::new_unchecked(b"/")
+					));
 				} else {
 					path_buffer.set_path(base_iri.path().parent_or_empty());
 					path_buffer.path_mut().normalize();
